@@ -451,6 +451,13 @@ func runRollout(r *vs.Rand, i int, seed uint64, out *vs.Out, crash bool) {
 			delete(o["spec"].(map[string]interface{}), "childLabels")
 		})
 	}
+	if r.Chance(30) {
+		// the hook lists a null entry first (or second) among the children: the hook order of the others is what counts
+		at := int64(r.Intn(2))
+		sc.w.sim.Mutate(parentGroup, cfg.parentResource(), nsOfKey(sc.key), "p1", func(o map[string]interface{}) {
+			o["spec"].(map[string]interface{})["nullAt"] = at
+		})
+	}
 	var rounds []roundInfo
 	k := 0
 	for ; k < replicas+4; k++ {
